@@ -288,10 +288,24 @@ def _lowered(py, fn, e: ast.AST, depth=0) -> bool:
                 defs.append(n.iter)      # `for k, v in d.items()`: as lowered as d is
         if e.id == "line_lower":
             return True
+        key = (id(fn), e.id)
+        if key in _VISITING:
+            return True          # a cycle of copies (`text = attr ... attr = text`): as lower-case as its other sources
         if not defs:
             v = _param_lowered(py, fn, e.id, depth)
             if v is not None:
                 return v
+        def empty_container(d) -> bool:
+            return (isinstance(d, (ast.List, ast.Set, ast.Tuple)) and not d.elts) or (isinstance(d, ast.Dict) and not d.keys) or \
+                (isinstance(d, ast.Call) and call_name(d) in ("set", "list") and not d.args)
+        if defs and all(empty_container(d) for d in defs):
+            # a local collection: as lower-case as everything that is put into it
+            added = [c.args[-1] for c in ast.walk(fn) if isinstance(c, ast.Call) and isinstance(c.func, ast.Attribute)
+                     and isinstance(c.func.value, ast.Name) and c.func.value.id == e.id
+                     and c.func.attr in ("add", "append", "insert", "extend", "update") and c.args]
+            added += [st.value for st in ast.walk(fn) if isinstance(st, ast.AugAssign) and isinstance(st.target, ast.Name)
+                      and st.target.id == e.id]
+            return bool(added) and all(_lowered(py, fn, a, depth + 1) for a in added)
         if defs:
             def mentions_self(d):
                 return any(isinstance(x, ast.Name) and x.id == e.id for x in ast.walk(d))
@@ -299,8 +313,20 @@ def _lowered(py, fn, e: ast.AST, depth=0) -> bool:
             if any(mentions_self(d) and ".lower()" in ast.unparse(d) for d in defs):
                 return True
             base = [d for d in defs if not mentions_self(d)]
-            return bool(base) and all(_lowered(py, fn, d, depth + 1) for d in base)
+            _VISITING.add(key)
+            try:
+                return bool(base) and all(_lowered(py, fn, d, depth + 1) for d in base)
+            finally:
+                _VISITING.discard(key)
+    if isinstance(e, ast.BinOp) and isinstance(e.op, ast.Add):
+        return _lowered(py, fn, e.left, depth + 1) and _lowered(py, fn, e.right, depth + 1)
+    if isinstance(e, ast.Call) and isinstance(e.func, ast.Attribute) and e.func.attr == "sub" and len(e.args) >= 2:
+        # `REGEX.sub(replacement, text)`: outside the replaced pieces the result is `text`
+        return _lowered(py, fn, e.args[1], depth + 1)
     return False
+
+
+_VISITING: set = set()
 
 
 def r2_lower_discipline(ctx, rep):
@@ -765,6 +791,80 @@ def r9_kind_suffix(ctx, rep):
            py.nloc(node), witness=None if ok else "1_c_int")
 
 
+def r11_two_word_types(ctx, rep):
+    """`double precision` may be written with any number of blanks between the two words, including none.  The recogniser
+    (VAR_TYPE_STRING) and the normalisers that map every spelling onto one displayed name are separate regular expressions: each
+    two-word alternative the recogniser accepts has to be included in the language of a normaliser, otherwise that spelling is
+    documented under a name of its own (`doubleprecision`).  Decided as a language inclusion (E2)."""
+    py, rx = ctx.py, ctx.rx
+    env = py.module_env("sourceform")
+    vts = env.get("VAR_TYPE_STRING")
+    if not isinstance(vts, str):
+        raise AnalysisError("sourceform.VAR_TYPE_STRING is not a constant string")
+    alts = [a.lstrip("^") for a in vts.split("|") if "\\s" in a or " " in a]
+    pt = py.func("sourceform.parse_type")
+    # normalisers: regexes matched against the recognised type name whose success assigns a constant name
+    norm: List[Tuple[str, str, int]] = []
+    for st in ast.walk(pt):
+        if isinstance(st, ast.If) and any(isinstance(x, ast.Assign) and isinstance(x.value, ast.Constant) and isinstance(x.value.value, str)
+                                          for x in st.body):
+            for c in ast.walk(st.test):
+                if isinstance(c, ast.Call) and isinstance(c.func, ast.Attribute) and c.func.attr in ("match", "fullmatch", "search"):
+                    nm = ast.unparse(c.func.value).split(".")[-1]
+                    for key, (pat, flags, _node, mod) in ctx.regexes.items():
+                        if key.split(".")[-1] == nm and mod == "sourceform":
+                            norm.append((nm, pat, flags))
+    if not alts or not norm:
+        raise AnalysisError(f"two-word type alternatives {alts} / normalisers {[n for n, _p, _f in norm]} not found")
+    for a in alts:
+        La = rx.full(a, re.IGNORECASE)
+        covered, wit = False, None
+        for nm, pat, flags in norm:
+            w = rx.subset_witness(La, rx.prefix_lang(pat, flags) if False else rx.full(pat + ".*", flags))
+            if w is None:
+                covered = True
+                break
+            wit = wit or w
+        rep.ob(f"every spelling of `{a}` is normalised", covered,
+               "included in the language of a normaliser" if covered else
+               f"the recogniser accepts `{wit}` but no normaliser ({', '.join(n for n, _p, _f in norm)}) matches it: that spelling is "
+               f"shown as a type of its own", py.nloc(pt), witness=wit)
+
+
+def r12_template_name_comparisons(ctx, rep):
+    """Fortran names are case-insensitive, FORD keeps them as written.  A template that decides something by comparing two names
+    (`proc.name != proc.retvar.name`: show a result clause; `tb.name != tb.bindings[0].name`: show `=> target`) must compare
+    them case-insensitively, otherwise `function Foo(x)` with `real :: foo` is documented with an invented `result(foo)`."""
+    from jinja2 import nodes as N
+    j = ctx.j
+    n = 0
+
+    def name_like(e) -> bool:
+        while isinstance(e, N.Filter):
+            e = e.node
+        return isinstance(e, N.Getattr) and e.attr == "name"
+
+    def folded(e) -> bool:
+        while isinstance(e, N.Filter):
+            if e.name in ("lower", "upper"):
+                return True
+            e = e.node
+        return False
+    for tname, tree in sorted(j.templates.items()):
+        for c in tree.find_all(N.Compare):
+            for op in c.ops:
+                if op.op in ("eq", "ne") and name_like(c.expr) and name_like(op.expr):
+                    n += 1
+                    ok = folded(c.expr) and folded(op.expr)
+                    from ..jmodel import sym as _sym
+                    rep.ob(f"template={tname} comparison `{_sym(c.expr, {})}` / `{_sym(op.expr, {})}`", ok,
+                           "compared case-insensitively" if ok else
+                           "two entity names are compared as written: the same program with a name spelled in another case is "
+                           "rendered differently (an invented `result(...)` clause / `=> target`)", f"ford/templates/{tname}:{c.lineno}")
+    if n < 1:
+        raise AnalysisError("no comparison of two entity names found in the templates")
+
+
 RULES = [
     RuleSpec("C01.R5", r5_character_slots, "character selector slots are filled at most once", floor=2),
     RuleSpec("C01.R1", r1_case_neutral, "case-neutral recognition", floor=24),
@@ -775,4 +875,6 @@ RULES = [
     RuleSpec("C01.R9", r9_kind_suffix, "numeric kind suffix is split at the first underscore", floor=1),
     RuleSpec("C01.R7", r7_keywords_are_whole_words, "keywords are recognised as whole words", floor=1),
     RuleSpec("C01.R6", r6_order_bearing_collections, "order-bearing collections are never sorted", floor=2),
+    RuleSpec("C01.R11", r11_two_word_types, "two-word type keywords are normalised in every spelling", floor=2),
+    RuleSpec("C01.R12", r12_template_name_comparisons, "templates compare names case-insensitively", floor=1),
 ]
